@@ -669,6 +669,33 @@ func (g *dgen) session(tier string, idx int) {
 			}
 			continue
 		}
+		if g.p(0.03) && !last && !g.open {
+			// a command that FAILS AFTER it has buffered effective writes (a later argument is invalid), then an unrelated
+			// successful write: nothing of the failed command may reach the store with it
+			k := g.key()
+			long := strings.Repeat("x", 10241)
+			m1, m2 := g.mem(), g.mem()
+			var seq [][]string
+			switch g.rng.Intn(5) {
+			case 0:
+				seq = [][]string{{"hmset", k, m1, "1", m2 + "2", "2"}, {"hdel", k, m1, long}}
+			case 1:
+				seq = [][]string{{"sadd", k, m1, m2 + "2"}, {"srem", k, m1, long}}
+			case 2:
+				seq = [][]string{{"zadd", k, "1", m1, "2", m2 + "2"}, {"zrem", k, m1, long}}
+			case 3:
+				seq = [][]string{{"sadd", k, m1}, {"sadd", k, m2 + "3", long}}
+			default:
+				seq = [][]string{{"hmset", k, m1, "1"}, {"hmset", k, m2 + "4", "v", long, "v"}}
+			}
+			seq = append(seq, []string{"set", g.key(), "z"})
+			for _, a := range seq {
+				g.stepClock()
+				g.emit(fmt.Sprintf("w %d 1 %s", g.ts, hexArgs(a)))
+				g.emit("inv")
+			}
+			continue
+		}
 		if g.p(0.04) && !last && !g.open && len(g.keys) >= 2 {
 			// dependency inside ONE apply event: a multi-key write followed by a state-dependent write on one of ITS LATER keys
 			// (the batch operator's duplicate-key check must see every key of the multi-key command, else the second command
@@ -681,7 +708,12 @@ func (g *dgen) session(tier string, idx int) {
 			if k2 != k1 {
 				dep := [][]string{{"set", k2, g.val(), "nx"}, {"setnx", k2, g.val()}, {"incr", k2}, {"append", k2, "x"}, {"set", k2, g.val(), "xx"}, {"getset", k2, g.val()}}[g.rng.Intn(6)]
 				var pre, ev [][]string
-				switch g.rng.Intn(3) {
+				switch g.rng.Intn(4) {
+				case 3:
+					// two state-dependent writes on the SAME key inside one event, behind a write to another key: the second
+					// must see the first (every key written in the open batch has to be recorded, not only the first one)
+					pre = [][]string{{"del", k2}}
+					ev = [][]string{{"set", k1, "1"}, {"set", k2, "a", "nx"}, {"set", k2, "b", "nx"}, dep}
 				case 0:
 					pre = [][]string{{"set", k1, "1"}, {"set", k2, "2"}}
 					ev = [][]string{{"del", k1, k2}, dep}
